@@ -51,8 +51,9 @@ def gen_closed(r, tier):
             now += r.pick([tick, tick, 3 * 3600 * 10**9]) if kind != "pid" else tick
             ops.append(f"w.cycle curve={r.pick([0, 255, r.range(0, 255)])} now={now}")
             ops.append("w.poll")
-        if kind == "pid" and r.chance(0.3):
-            idle = r.pick([0, 255])     # a long idle phase at an end of the scale, at the tick period
+        if kind == "pid" and r.chance(0.7):
+            # a long idle phase ON target, at the tick period: at an end of the scale or wherever the loop has settled
+            idle = r.pick([0, 255, r.range(0, 255)])
             for _ in range(r.pick([200, 600]) if tier == "quick" else r.pick([600, 1800])):
                 now += tick
                 ops.append(f"w.cycle curve={idle} now={now}")
